@@ -119,6 +119,8 @@ inductive Stmt
   | range (x : Nat) (e : Expr) (body : Stmt)                   -- for _, x := range e { body }
   | ret (es : List Expr)
   | opaque                                                     -- a statement the translator does not know
+  | setByte (x : Nat) (i e : Expr)                             -- x[i] = e, x a byte slice
+  | panicS                                                     -- panic(…)
   deriving DecidableEq, Repr, Inhabited
 
 structure Func where
@@ -435,6 +437,12 @@ def exec (ext : Ext O) (callee : Nat → List Ty → List (V O) → Bytes → Ca
     | some vs => .ret vs s
     | none => .panic
   | .opaque, _ => .panic
+  | .setByte x i e, s =>
+    match s.loc x, evalE targs s i, evalE targs s e with
+    | .bytes bs, some (.int k), some (.int v) =>
+      if 0 ≤ k ∧ k < bs.length ∧ 0 ≤ v ∧ v < 256 then .norm (s.set x (.bytes (bs.set k.toNat (UInt8.ofNat v.toNat)))) else .panic
+    | _, _, _ => .panic
+  | .panicS, _ => .panic
 
 /-- the frame of a call: the arguments in the first slots, every other slot unset -/
 def initLoc (args : List (V O)) : Nat → V O := fun i => args.getD i .unit
